@@ -261,3 +261,6 @@ Definition vremove_at_pinned (s : vec) (index : Z) : res (verr + list cell) :=
                bind (vmemcpy b dst src size) (fun b' => Ok (inr b'))
              end
   end.
+(* ... and the newmax == 0 branch of qvector_resize also executed `vector->objsize = 0;` *)
+Definition vresize_pinned (s : vec) (newmax : nat) : vec * bool :=
+  if newmax =? 0 then (mkVec None 0 0 0 (vinitnum s) (vpol s), true) else vresize s newmax.
